@@ -24,6 +24,8 @@ LEVEL_TEXT = (
     "the guarded column).  Two fixed probes: a user-defined non-idempotent Reordering next to every built-in operation "
     "and next to itself (never merged, never dropped); equal pairs of selections / sorts whose function is restricted to "
     "a different kind of engine, merged in one engine after the other.  No absence claim beyond those bounds."
+    "  The same upstream relation object is merged into a second time with a different operation of the same kind "
+    "and a third time with the first one."
 )
 LEVEL_NOTE = "trusts: the reference evaluator (vf/core/prog.py), decoding of library operations through public dataclass fields, Hypothesis"
 RULE = (
